@@ -672,6 +672,37 @@ func propC10(t *rapid.T) {
 			c10Check(t, fmt.Sprintf("prefix:%d/%d of %s", k, len(enc), desc), e, enc[:k], true)
 		}
 	}
+	// the same prefixes as sub-slices data[:k] of the complete stream (cap > len: the rest of the valid
+	// stream follows in memory; a decoder must respect len, not cap)
+	{
+		g := inst.NewGuard(enc, true)
+		g.ReadOnly()
+		restore := inst.FaultsAsPanics()
+		step := len(cuts)/300 + 1
+		for ci := 0; ci < len(cuts); ci += step {
+			k := cuts[ci]
+			for _, e := range []int{eFromBuffer, eFromUnsafeBytes} {
+				b := roaring.New()
+				var err error
+				p, st := inst.Try(func() {
+					if e == eFromBuffer {
+						_, err = b.FromBuffer(g.Data[:k])
+					} else {
+						_, err = b.FromUnsafeBytes(g.Data[:k])
+					}
+				})
+				if p != nil {
+					t.Fatalf("%s(data[:%d]) of a %d-byte stream panicked: %v [%s]", c10Entries[e], k, len(enc), p, st)
+				}
+				if err == nil {
+					t.Fatalf("%s accepted data[:%d], a proper prefix (cap > len) of a valid %d-byte stream: it read beyond the slice it was given", c10Entries[e], k, len(enc))
+				}
+			}
+		}
+		restore()
+		g.Free()
+		inst.Count("C10", "prefix-subslice-decodes")
+	}
 	inst.CountN("C10", "prefix-decodes", 5*len(cuts))
 	if len(cuts) > 0 {
 		k := cuts[rapid.IntRange(0, len(cuts)-1).Draw(t, "mrfcut")]
